@@ -56,6 +56,19 @@ FIRST_RUN_MISSED = {  # seeded changes the checks did NOT catch when first confr
     "C18-8": "one copy per case; a second untouched copy is now compared after the first is edited",
     "C19-7": "trees were assembled by appending; they are now also assembled with add_child(child, index)",
     "C20-7": "the text-mode and XML-mode calls never saw the same string",
+    "C02-9": "non-mixed rules were only exercised with valid children; every rule now also gets a foreign child and the CONTENT errors collected are judged on their own",
+    "C03-9": "one foreign attribute name only; namespace-style, case-variant and empty foreign names were added",
+    "C06-10": "no prefix literally called 'null'",
+    "C08-9": "no text that literally contains an entity-looking string (CDATA / doubly escaped ampersand)",
+    "C10-9": "implemented content-rule names were compared with a hard-coded list and witnesses existed for mapped elements only; every rule of the table now validates a witness through Rule(rn).validate_rule",
+    "C11-9": "no detached node with a stale parent link in the context; the copy of an inner node is now part of it and is queried",
+    "C12-10": "no attribute called 'id' below the copied root",
+    "C13-9": "nodes were never constructed with parent=...; a node created that way in mid-history was added",
+    "C13-10": "exit 2: replaying a history prefix raised a harness error when state leaked from other histories; prefix failures are now reported and confirmed by the block re-run",
+    "C14-9": "exit 2: the explorer recursed forever over a child list shared by two nodes; a forest sanity check was added",
+    "C16-9": "never two references nodes under one parent",
+    "C16-10": "no duplicated id carried by a referencing element itself",
+    "C18-9": "insertion order of attributes was declared unspecified; since attributes / extras / nsmap are mappings, equal mappings in another order must compare equal",
 }
 NOT_DETECTED_BY_DESIGN = {"C19-5", "C09-8"}
 ids = sys.argv[1:] or sorted(os.listdir(os.path.join(HERE, "seeded")))
